@@ -28,12 +28,13 @@ let read_common t =
 let hexo = function None -> "-" | Some b -> hex_of_bytes b
 
 (* ---------------- bv2 ---------------- *)
-let cmd_bv2 t =
+let bv2_line t : string =
   let (ins, outs) = read_common t in
   let parties = next_list t (fun t ->
     let _ctor = next_int t in
     let own = next_list t next_int in let os = next_list t next_int in let is = next_list t next_int in
-    (own, os, is)) in
+    let fl = next_list t next_int in
+    (own, os, is, fl)) in
   let opens = Stdlib.List.map (fun _ -> let a = next_hex t in let v = next_hex t in (a, v)) ins in
   if next t <> "|" then failwith "format";
   let nobs = next_int t in
@@ -49,7 +50,11 @@ let cmd_bv2 t =
     let oas = next_list t (fun t ->
       let i = next_n t in let ab = next_opt t in let vb = next_opt t in
       { boa_idx = i; boa_abf = ab; boa_vbf = vb }) in
-    (genres, { bpa_genok = (genres = 1); bpa_vok = vok; bpa_owned = owned; bpa_iss = iss; bpa_outs = oas })) in
+    let fvok = next_bool t in
+    let fas = next_list t (fun t ->
+      let i = next_n t in let ab = next_opt t in let vb = next_opt t in
+      { boa_idx = i; boa_abf = ab; boa_vbf = vb }) in
+    (genres, { bpa_genok = (genres = 1); bpa_vok = vok; bpa_owned = owned; bpa_iss = iss; bpa_outs = oas }, fvok, fas)) in
   let p0 = {
     bps_ins = Stdlib.List.map (fun i ->
       { bpi_conf = i.s_conf;
@@ -60,34 +65,64 @@ let cmd_bv2 t =
       { bpo_value = z_of_int o.q_value; bpo_blind = o.q_blind; bpo_bidx = n_of_int o.q_bidx; bpo_open = None }) outs;
     bps_scalars = [] } in
   let nparties = Stdlib.List.length parties in
+  let ws = Stdlib.List.map2 (fun i (a, v) ->
+    { bwi_asset = n_of_int i.s_asset; bwi_value = z_of_int i.s_value; bwi_abf = a; bwi_vbf = v;
+      bwi_iss = n_of_int i.s_iss; bwi_issv = z_of_int i.s_issv;
+      bwi_isst = z_of_int (if i.s_iss = 1 then i.s_isst else 0) }) ins opens in
   let buf = Buffer.create 256 in
+  let show_ok k last s pre =
+    if last then Buffer.add_string buf (Printf.sprintf "p%d=%sok:last:%s " k pre (hexo s.bso_lastvbf))
+    else Buffer.add_string buf (Printf.sprintf "p%d=%sok:%s " k pre (hexo s.bso_scalar)) in
   let rec go k p obs =
     match obs with
     | [] -> Some p
-    | (genres, pa) :: rest ->
+    | (genres, pa, fvok, fas) :: rest ->
       let last = (k = nparties - 1) in
       if genres <> 1 then begin
         Buffer.add_string buf (Printf.sprintf "p%d=%s " k (if genres = 2 then "panic" else "abort")); None
-      end else
-      match bl_party_step p pa last with
-      | BOk s ->
-        if last then Buffer.add_string buf (Printf.sprintf "p%d=ok:last:%s " k (hexo s.bso_lastvbf))
-        else Buffer.add_string buf (Printf.sprintf "p%d=ok:%s " k (hexo s.bso_scalar));
-        go (k + 1) s.bso_pset rest
-      | BErr -> Buffer.add_string buf (Printf.sprintf "p%d=err " k); None
-      | BPanic -> Buffer.add_string buf (Printf.sprintf "p%d=panic " k); None in
+      end else begin
+        (* what UnblindInputs must have returned for this packet *)
+        let (own, _, _, fl) = Stdlib.List.nth parties k in
+        let pred = bl_unblind_inputs ws (Stdlib.List.map n_of_int own) in
+        Buffer.add_string buf (Printf.sprintf "o%d=%s " k (Stdlib.String.concat "," (Stdlib.List.map (fun o ->
+          Printf.sprintf "%d:%d:%s:%s" (int_of_n o.bow_idx) (int_of_z o.bow_value) (hexo o.bow_abf) (hexo o.bow_vbf)) pred)));
+        if fl = [] then
+          match bl_party_step p pa last with
+          | BOk s -> show_ok k last s ""; go (k + 1) s.bso_pset rest
+          | BErr -> Buffer.add_string buf (Printf.sprintf "p%d=err " k); None
+          | BPanic -> Buffer.add_string buf (Printf.sprintf "p%d=panic " k); None
+        else if not (bl_new_blinder p pa.bpa_owned) then begin
+          Buffer.add_string buf (Printf.sprintf "p%d=err " k); None end
+        else
+          (* a first call with the partial arguments, then the real one on the same Blinder *)
+          match bl_blind p pa.bpa_owned pa.bpa_iss fas last fvok with
+          | BPanic -> Buffer.add_string buf (Printf.sprintf "p%d=panic " k); None
+          | first ->
+            let (pre, p1) = (match first with BOk s -> ("try.ok.1/", s.bso_pset) | _ -> ("try.err.1/", p)) in
+            (match bl_blind p1 pa.bpa_owned pa.bpa_iss pa.bpa_outs last pa.bpa_vok with
+             | BOk s -> show_ok k last s pre; go (k + 1) s.bso_pset rest
+             | BErr -> Buffer.add_string buf (Printf.sprintf "p%d=%serr " k pre); None
+             | BPanic -> Buffer.add_string buf (Printf.sprintf "p%d=panic " k); None)
+      end in
   let fin = go 0 p0 obs in
   (match fin with
    | Some p when Stdlib.List.length obs = nparties ->
-     let ws = Stdlib.List.map2 (fun i (a, v) ->
-       { bwi_asset = n_of_int i.s_asset; bwi_value = z_of_int i.s_value; bwi_abf = a; bwi_vbf = v;
-         bwi_iss = n_of_int i.s_iss; bwi_issv = z_of_int i.s_issv;
-         bwi_isst = z_of_int (if i.s_iss = 1 then i.s_isst else 0) }) ins opens in
      let wos = Stdlib.List.map (fun o -> { bwo_asset = n_of_int o.q_asset; bwo_value = z_of_int o.q_value }) outs in
      let bl = Stdlib.String.concat "" (Stdlib.List.map (fun o -> match o.bpo_open with Some _ -> "1" | None -> "0") p.bps_outs) in
      Buffer.add_string buf (Printf.sprintf "done=1 bl=%s bal=%s" bl (b2s (bl_balanced ws wos p)))
    | _ -> Buffer.add_string buf "done=0");
-  print_endline (Buffer.contents buf)
+  Buffer.contents buf
+
+let cmd_bv2 t = print_endline (bv2_line t)
+
+(* history: sub-scenarios separated by ";;", each a pure function of its own packet and keys *)
+let cmd_bvh t =
+  let rec split acc cur = function
+    | [] -> Stdlib.List.rev (if cur = [] then acc else Stdlib.List.rev cur :: acc)
+    | ";;" :: r -> split (Stdlib.List.rev cur :: acc) [] r
+    | x :: r -> split acc (x :: cur) r in
+  let subs = split [] [] t.l in
+  print_endline (Stdlib.String.concat " ;; " (Stdlib.List.map (fun l -> bv2_line { l = l }) subs))
 
 (* ---------------- bv0 ---------------- *)
 let cmd_bv0 t =
@@ -117,4 +152,4 @@ let cmd_bv0 t =
     Printf.printf "res=ok o=%s iss=%s bal=%s\n" (Stdlib.String.concat "," os) (Stdlib.String.concat "," is)
       (b2s (b0_balanced mins mouts r))
 
-let () = register "bv2" cmd_bv2; register "bv0" cmd_bv0
+let () = register "bv2" cmd_bv2; register "bv0" cmd_bv0; register "bvh" cmd_bvh
